@@ -25,6 +25,7 @@ from ..astutil import (text, access_path, calls_in, func_params, stmts_of, is_co
                        is_method_call, single_defs, canon_text)
 from ..loader import where, AnalysisError
 from ..paths import Enumerator
+from ..terms import Terms, PathEnv, fuse, alpha, canonical
 
 
 def body_fn(stmts, args, lineno=0):
@@ -39,49 +40,29 @@ def r1_population(ctx, repo):
     if fn is None:
         raise AnalysisError("Problem.population not found")
     selfn, pid = func_params(fn)[:2]
-    loops = [s for s in fn.body if isinstance(s, ast.For)]
     C = "Problem.population"
-    ok = False
-    if len(loops) == 1 and access_path(loops[0].iter) == selfn + ".individuals" and isinstance(loops[0].target, ast.Name):
-        lv = loops[0].target.id
-        good = True
-        npaths = 0
-        for p in Enumerator(loop_counts=(0, 1)).function_paths(body_fn(loops[0].body, fn.args, loops[0].lineno)):
-            npaths += 1
-            eq = None
-            for g, val in [(e.node, e.val) for e in p.events if e.kind == "guard"]:
-                if isinstance(g, ast.Compare) and len(g.ops) == 1 and {text(g.left), text(g.comparators[0])} == {lv + ".population_id", pid}:
-                    if isinstance(g.ops[0], ast.Eq):
-                        eq = val
-                    elif isinstance(g.ops[0], ast.NotEq):
-                        eq = not val
-                    else:
-                        eq = "order"
-            apps = [c for e in p.events if e.kind == "stmt" for c in calls_in(e.node) if is_method_call(c, "append")]
-            n_app = sum(1 for c in apps if c.args and access_path(c.args[0]) == lv)
-            if eq == "order":
-                ctx.violated("R1", C, where(mod, loops[0]), "the population filter compares tags with an order relation instead of equality: other generations leak into the answer")
-                return
-            if eq is None or n_app != (1 if eq else 0) or len(apps) != n_app:
-                good = False
-        ret = [s for s in fn.body if isinstance(s, ast.Return)]
-        if good and ret and isinstance(ret[-1].value, ast.Name):
-            ok = True
-            ctx.holds("R1", C, where(mod, fn), "members kept iff tag == requested tag, in recording order (%d body paths)" % npaths)
-    elif len(fn.body) <= 3:
-        # comprehension form
-        rets = [s for s in fn.body if isinstance(s, ast.Return)]
-        if rets and isinstance(rets[0].value, ast.ListComp):
-            lc = rets[0].value
-            g = lc.generators[0]
-            if access_path(g.iter) == selfn + ".individuals" and isinstance(lc.elt, ast.Name) and len(g.ifs) == 1 \
-                    and isinstance(g.ifs[0], ast.Compare) and isinstance(g.ifs[0].ops[0], ast.Eq) \
-                    and {text(g.ifs[0].left), text(g.ifs[0].comparators[0])} == {lc.elt.id + ".population_id", pid}:
-                ok = True
-                ctx.holds("R1", C, where(mod, fn), "comprehension keeps members with tag == requested tag, in recording order")
-    if not ok:
-        ctx.violated("R1", C, where(mod, fn), "population(tag) does not return exactly the recorded individuals carrying that tag in recording order") \
-            if loops else ctx.inconclusive("R1", C, where(mod, fn), "unrecognised shape")
+    rts = [alpha(fuse(t)) for _, t in Terms(fn).returns if t is not None]
+    state, why = None, "returned value not recognised as a selection from the recorded individuals"
+    if len(rts) == 1 and isinstance(rts[0], ast.ListComp) and len(rts[0].generators) == 1:
+        lc = rts[0]
+        g = lc.generators[0]
+        if access_path(g.iter) == selfn + ".individuals" and isinstance(g.target, ast.Name):
+            v = g.target.id
+            tagged = {v + ".population_id", pid}
+            if access_path(lc.elt) != v:
+                state, why = None, "the selection returns %s instead of the individuals" % text(lc.elt)
+            elif len(g.ifs) == 1 and isinstance(g.ifs[0], ast.Compare) and len(g.ifs[0].ops) == 1 \
+                    and {text(g.ifs[0].left), text(g.ifs[0].comparators[0])} == tagged:
+                op = g.ifs[0].ops[0]
+                if isinstance(op, ast.Eq):
+                    state = True
+                elif isinstance(op, (ast.Lt, ast.LtE, ast.Gt, ast.GtE)):
+                    state, why = False, "the population filter compares tags with an order relation instead of equality: other generations leak into the answer"
+                else:
+                    state, why = False, "the population filter is `%s`, not tag == requested tag" % text(g.ifs[0])
+            elif not g.ifs:
+                state, why = False, "population(tag) returns every recorded individual: the tag is not tested"
+    ctx.check3(state, "R1", C, where(mod, fn), "members kept iff tag == requested tag, in recording order", why, why)
 
     # last_population: the maximum tag
     fn2 = cls.methods.get("last_population")
@@ -99,9 +80,10 @@ def r1_population(ctx, repo):
             mv = arg.id
             upd = [s for s in stmts_of(loops[0]) if isinstance(s, ast.Assign) and access_path(s.targets[0]) == mv]
             ifs = [s for s in loops[0].body if isinstance(s, ast.If)]
-            if len(ifs) == 1 and len(upd) == 1 and text(upd[0].value) == lv + ".population_id" and isinstance(ifs[0].test, ast.Compare) \
-                    and len(ifs[0].test.ops) == 1:
-                t = ifs[0].test
+            T2 = Terms(fn2)
+            if len(ifs) == 1 and len(upd) == 1 and text(T2.expand(upd[0].value, at=upd[0])) == lv + ".population_id" \
+                    and isinstance(T2.expand(ifs[0].test, at=ifs[0]), ast.Compare) and len(ifs[0].test.ops) == 1:
+                t = T2.expand(ifs[0].test, at=ifs[0])
                 l, r, op = text(t.left), text(t.comparators[0]), type(t.ops[0])
                 grows = (l == lv + ".population_id" and r == mv and op in (ast.Gt, ast.GtE)) or \
                         (r == lv + ".population_id" and l == mv and op in (ast.Lt, ast.LtE))
@@ -155,32 +137,33 @@ def pair_sites(ctx, repo):
             raise AnalysisError("Results.%s not found" % name)
         C = "Results.%s" % name
         selfn = func_params(fn)[0]
-        # --- R2: lock-step appends
-        loops = [s for s in fn.body if isinstance(s, ast.For) and isinstance(s.target, ast.Name)]
-        if loops:
-            lp = loops[0]
-            lv = lp.target.id
-            bad = None
-            lists = set()
-            for p in Enumerator(loop_counts=(0, 1)).function_paths(body_fn(lp.body, fn.args, lp.lineno)):
-                apps = {}
-                for e in p.events:
-                    if e.kind == "stmt":
-                        for c in calls_in(e.node):
-                            mc = method_call(c)
-                            if mc and mc[1] == "append" and isinstance(mc[0], ast.Name):
-                                apps.setdefault(mc[0].id, []).append(c.args[0])
-                lists |= set(apps)
-                for k, vals in apps.items():
-                    if len(vals) != 1 or not text(vals[0]).startswith(lv + "."):
-                        bad = (k, vals)
-                if len({len(v) for v in apps.values()}) > 1 or (lists and set(apps) != lists):
-                    bad = bad or ("count", apps)
-            if bad or len(lists) != 2:
-                ctx.violated("R2", C, where(mod, lp), "the two parallel lists are not filled in lock-step from the same individual (%s)" % (bad,), key="lock-step")
-            else:
-                ctx.holds("R2", C, where(mod, lp), "lists %s get one entry each per individual, both taken from `%s`" % (sorted(lists), lv), key="lock-step")
+        # --- R2: lock-step: the two returned lists as value terms right after they are filled
+        TT = Terms(fn)
+        retnames = []
+        for r_ in [x for x in stmts_of(fn) if isinstance(x, ast.Return)][-1:]:
+            if isinstance(r_.value, (ast.List, ast.Tuple)) and all(isinstance(e_, ast.Name) for e_ in r_.value.elts):
+                retnames = [e_.id for e_ in r_.value.elts]
+        filled = {}
+        for st_ in fn.body:
+            env_ = TT.before.get(id(st_), ({}, set()))[0]
+            for nm in retnames:
+                if nm not in filled and nm in env_:
+                    ft = fuse(env_[nm])
+                    if isinstance(ft, ast.ListComp) and len(ft.generators) == 1:
+                        filled[nm] = ft
+        if len(retnames) == 2 and len(filled) == 2:
+            a_, b_ = (alpha(filled[nm]) for nm in retnames)
+            ga, gb = a_.generators[0], b_.generators[0]
+            same_src = text(ga.iter) == text(gb.iter) and text(ga.target) == text(gb.target) == "_0"
+            unfiltered = not ga.ifs and not gb.ifs
+            from_member = all(text(e_.elt).startswith("_0.") for e_ in (a_, b_))
+            if same_src and unfiltered and from_member:
+                ctx.holds("R2", C, where(mod, fn), "lists %s = %s / %s: one entry each per individual of the same sequence, in the same order" % (retnames, text(a_), text(b_)), key="lock-step")
                 n_sites += 1
+            else:
+                ctx.violated("R2", C, where(mod, fn), "the two parallel lists are not filled in lock-step from the same individual (%s / %s)" % (text(a_), text(b_)), key="lock-step")
+        elif any(isinstance(x, ast.For) for x in fn.body):
+            ctx.inconclusive("R2", C, where(mod, fn), "the two returned lists are not recognised as built from one sequence of individuals", key="lock-step")
         # --- R3: sort pairing on every path
         okp, npaths, bad = True, 0, None
         for p in Enumerator(loop_counts=(0, 1)).function_paths(fn):
@@ -232,9 +215,9 @@ def pair_sites(ctx, repo):
     rets = [s for s in stmts_of(fn) if isinstance(s, ast.Return)]
     ok = False
     detail = "unrecognised"
-    if rets:
-        from ..astutil import canon
-        v = canon(rets[-1].value, defs)
+    trets = [t for _, t in Terms(fn).returns if t is not None]
+    if len(trets) == 1:
+        v = fuse(trets[0])
         if isinstance(v, ast.ListComp) and len(v.generators) == 1 and not v.generators[0].ifs:
             g = v.generators[0]
             it = g.iter
@@ -361,6 +344,10 @@ def r4_find_optimum(ctx, repo):
                     idx_assign.setdefault(tn, []).append(i)
                     if isinstance(s_.value, ast.IfExp) and {access_path(s_.value.body), access_path(s_.value.orelse)} == {"min", "max"}:
                         aliases[tn] = s_.value
+                    elif access_path(s_.value) in ("min", "max"):
+                        aliases[tn] = access_path(s_.value)       # select = min  (on this path)
+                    else:
+                        aliases.pop(tn, None)
                     if tn == "criteria" or "criteria" in tn:
                         for nd in ast.walk(s_.value):
                             if isinstance(nd, ast.Subscript) and (access_path(nd.value) or "").endswith(".problem.costs") and isinstance(nd.slice, ast.Name):
@@ -374,8 +361,17 @@ def r4_find_optimum(ctx, repo):
                     if c.args and (access_path(c.args[0]) or "").endswith(".problem.individuals") and nm is not None:
                         key = [k.value for k in c.keywords if k.arg == "key"]
                         keyt = text(key[0]) if key else None
+                        if key and isinstance(key[0], ast.Name):
+                            # a local function used as key: its returned expression
+                            for nd_ in ast.walk(fn):
+                                if isinstance(nd_, ast.FunctionDef) and nd_ is not fn and nd_.name == key[0].id:
+                                    rr_ = [x for x in nd_.body if isinstance(x, ast.Return)]
+                                    if len(nd_.body) == 1 and rr_ and len(nd_.args.args) == 1:
+                                        keyt = "lambda %s: %s" % (nd_.args.args[0].arg, text(rr_[0].value))
                         if nm in ("min", "max"):
                             picks.append((i, nm, keyt, dict(st)))
+                        elif nm in aliases and isinstance(aliases[nm], str):
+                            picks.append((i, aliases[nm], keyt, dict(st)))
                         elif nm in aliases:
                             ife = aliases[nm]
                             for atoms, val in cond_cases(ife.test):
